@@ -86,6 +86,12 @@ def handle (toks : List String) : String :=
           | .ok h => ok [encPairs (getAll h)]
           | .error e => ok [encErr e]
         | none => err "bad-arg"
+      -- `HTTPHeaders.parse(text, _chars_are_bytes=False)` (multipart/form-data part headers)
+      | "parseU" => match a.cps? with
+        | some t => match parse t false with
+          | .ok h => ok [encPairs (getAll h)]
+          | .error e => ok [encErr e]
+        | none => err "bad-arg"
       | "normalize" => match a.cps? with
         | some t => ok [V.ofCps (normalize t)]
         | none => err "bad-arg"
